@@ -282,6 +282,11 @@ def systematic_sources(basic):
                         first = (hm(off + step), "-", "FIX", form) if prev == "-" else (hm(off + step), "PA", "A%sT", form)
                         src([("PA", pa), ("PE", pe)], [(hm(off + 7), "-", "LMT", "1980"), first, (hm(off), "PE", "E%sT")],
                             "%s/jan-rule-%s-%s/%s/%s/%+d" % (h, rm, rd, form, prev, step))
+        # (H) a policy whose first rules start in the years around the first year of the database (1998..2001) and govern the
+        # zone from long before: the time before the first rule has no prior rule (anchor rule / initial letter)
+        for fy in (1998, 1999, 2000, 2001):
+            ph = [("Rule", "PH", fy, "max", "-", a[0], a[1], a[2], a[3], a[4]), ("Rule", "PH", fy, "max", "-", b[0], b[1], b[2], b[3], b[4])]
+            src([("PH", ph)], [(hm(off + 7), "-", "LMT", "1980"), (hm(off), "PH", "H%sT")], "%s/policy-starts-%d" % (h, fy))
         # (D) UNTIL given as a weekday expression, including ones that resolve into the neighbouring month
         if not basic:
             for form in ("2009 Sep Sun>=28 2:00", "2009 Oct Sat<=2 2:00", "2009 Mar lastSun 1:00u", "2009 Jun Sun>=8 0:00", "2009 Nov Sun>=29 3:00s",
